@@ -23,7 +23,8 @@ import (
 //
 // goal per member:  decoding does not fail, and the decoded field is the field
 // (optionals: same IsSet and, when set, same value; likewise nullables).
-func (jf *JSONFamily) RoundTripLemma(cr *CheckRun, jt *jsonType, entry string) {
+func (jf *JSONFamily) RoundTripLemma(cr *CheckRun, jt *jsonType, job *EmittedJob) {
+	entry := job.Em.Entry.Name
 	T := jt.Named
 	e := &FuncEnc{W: jf.Em.W, Name: "emitted[" + entry + "].lemma(" + T.Obj().Name() + ")", D: NewDecls()}
 	e.init()
@@ -80,7 +81,7 @@ func (jf *JSONFamily) RoundTripLemma(cr *CheckRun, jt *jsonType, entry string) {
 		cr.mu.Unlock()
 		return
 	}
-	cr.VerifyEncoded(e, entry, nil, nil)
+	cr.VerifyEncoded(e, entry, nil, func(fl *Failure) { jf.ReplayJSON(cr, job, fl) })
 }
 
 // sameValue: equality of Go values as the property means it: an unset
@@ -91,6 +92,9 @@ func (jf *JSONFamily) sameValue(e *FuncEnc, a, b string, t types.Type) string {
 		is := e.D.FieldSelector(t, structFieldIndex(t, "IsSet"))
 		vl := e.D.FieldSelector(t, structFieldIndex(t, "Value"))
 		return and(eq(sx(is, a), sx(is, b)), implies(sx(is, a), jf.sameValue(e, sx(vl, a), sx(vl, b), inner)))
+	}
+	if isRawMessage(t) {
+		return eq(sx("rawdoc", a), sx("rawdoc", b))
 	}
 	if _, ok := t.Underlying().(*types.Slice); ok {
 		if n, isNamed := t.(*types.Named); !isNamed || n.Obj().Pkg() == nil || n.Obj().Pkg().Path() != "emitted" {
@@ -114,6 +118,11 @@ func (jf *JSONFamily) wireAxioms(e *FuncEnc, t types.Type, s *RefSchema, docOf s
 	srt := e.D.SortOf(t)
 	n := mangle(typeKey(t))
 	iface := func(x string) string { return e.ifaceOf(t, x) }
+	if isRawMessage(t) {
+		// Encode writes the document a raw message holds
+		e.D.Axiom("wire:raw", fmt.Sprintf("(forall ((x Slice)) (! (= (%s (jv_enc %s)) (rawdoc x)) :pattern ((%s (jv_enc %s)))))", docOf, iface("x"), docOf, iface("x")))
+		return
+	}
 	if nt, ok := t.(*types.Named); ok && nt.Obj().Pkg() != nil && nt.Obj().Pkg().Path() == "emitted" {
 		ef, vf := e.udecFns(t)
 		e.D.Axiom("ih:"+n, fmt.Sprintf("(forall ((x %s)) (! (and (not (%s (%s (jv_enc %s)))) (= (%s (%s (jv_enc %s))) x)) :pattern ((%s (jv_enc %s)))))", srt, ef, docOf, iface("x"), vf, docOf, iface("x"), docOf, iface("x")))
